@@ -175,3 +175,37 @@ Definition listed_name (k : name) : bool := negb (String.eqb k ".") && negb (Str
 (* a problem recorded at a path between top and top ++ q *)
 Definition problem_between (problems : list problem) (top q : path) : Prop :=
   exists q1 k, is_prefix q1 q = true /\ In ((top ++ q1)%list, k) problems.
+
+(* ---------- the known-finding class of C09 ---------- *)
+(* createSymbolicLink reports a failure when SetPermissions fails AFTER the
+   link has been created; on Linux SetPermissions issues a call for a link
+   only when an ownership is configured. *)
+Fixpoint has_link (e : entry) : bool :=
+  let fix go (l : list (name * entry)) : bool :=
+    match l with
+    | [] => false
+    | (_, x) :: t => has_link x || go t
+    end in
+  match e with
+  | ELink _ => true
+  | EDir c | EPhantom c => go c
+  | _ => false
+  end.
+
+Definition creates_link (c : change) : bool :=
+  match cnew c with Some e => has_link e | None => false end.
+
+Definition known_c09 (own : bool) (plan : list change) : bool :=
+  own && existsb creates_link plan.
+
+(* every name occurring in an entry satisfies f *)
+Fixpoint entry_names (f : name -> bool) (e : entry) : bool :=
+  let fix go (l : list (name * entry)) : bool :=
+    match l with
+    | [] => true
+    | (n, x) :: t => f n && entry_names f x && go t
+    end in
+  match e with
+  | EDir c | EPhantom c => go c
+  | _ => true
+  end.
